@@ -307,6 +307,46 @@ class _Flattener:
         self.count = 0
         self.select = select  # optional predicate on the helper Function: inline only helpers it accepts
 
+    def _table_first_match(self, s: ast.stmt) -> Optional[ast.stmt]:
+        if not (isinstance(s, ast.Assign) and len(s.targets) == 1 and isinstance(s.targets[0], ast.Name) and isinstance(s.value, ast.Call)
+                and isinstance(s.value.func, ast.Name) and s.value.func.id == "next" and len(s.value.args) in (1, 2) and isinstance(s.value.args[0], ast.GeneratorExp)):
+            return None
+        g = s.value.args[0]
+        if len(g.generators) != 1 or len(g.generators[0].ifs) != 1 or not isinstance(g.generators[0].iter, ast.Name):
+            return None
+        gen = g.generators[0]
+        rows = _const_table(gen.iter.id, self.mod)
+        if rows is None:
+            # the table as a local bound once in this function
+            loc = [x for x in ast.walk(self.fn.node) if isinstance(x, ast.Assign) and len(x.targets) == 1 and isinstance(x.targets[0], ast.Name) and x.targets[0].id == gen.iter.id]
+            if len(loc) == 1 and isinstance(loc[0].value, (ast.Tuple, ast.List)) and 1 <= len(loc[0].value.elts) <= 8:
+                rows = list(loc[0].value.elts)
+        if rows is None or not isinstance(gen.target, ast.Tuple) or not all(isinstance(e, ast.Name) for e in gen.target.elts):
+            return None
+        names = [e.id for e in gen.target.elts]
+        if not all(isinstance(r, (ast.Tuple, ast.List)) and len(r.elts) == len(names) for r in rows):
+            return None
+        default = s.value.args[1] if len(s.value.args) == 2 else None
+        if default is None:
+            return None  # without a default `next` raises StopIteration: not an if-chain
+
+        def inst(e: ast.AST, row) -> ast.AST:
+            sub = dict(zip(names, row.elts))
+
+            class S(ast.NodeTransformer):
+                def visit_Name(self, x: ast.Name):  # noqa: N802
+                    return clone(sub[x.id]) if x.id in sub and isinstance(x.ctx, ast.Load) else x
+
+            return S().visit(clone(e))
+
+        node: Optional[ast.stmt] = ast.Assign(targets=[clone(s.targets[0])], value=clone(default), lineno=s.lineno)
+        orelse: List[ast.stmt] = [node]
+        for row in reversed(rows):
+            iff = ast.If(test=inst(gen.ifs[0], row), body=[ast.Assign(targets=[clone(s.targets[0])], value=inst(g.elt, row), lineno=s.lineno)], orelse=orelse)
+            orelse = [iff]
+        out = orelse[0]
+        return ast.fix_missing_locations(ast.copy_location(out, s))
+
     def _hof(self, call: ast.Call):
         got = _helper_of(call, self.fn, self.mod)
         if got is not None and self.select is not None and not self.select(got[0]):
@@ -400,6 +440,12 @@ class _Flattener:
             cs.body = self.block(cs.body, stack, depth)
         if depth <= 0:
             return [s]
+        # `x = next((name for pred, name in TABLE if pred(arg)), default)` over a module-level constant table of pairs is the if-chain
+        # it stands for: `if P1(arg): x = N1 / elif P2(arg): x = N2 / else: x = default`   (first match wins)
+        chain = self._table_first_match(s)
+        if chain is not None:
+            self.count += 1
+            return [chain]
         # `with helper(args):` where helper is a @contextmanager generator of the shape  <pre>; try: yield; finally: <post>
         # becomes  <pre>; try: <with body>; finally: <post>   (what contextlib does, written out)
         if isinstance(s, (ast.With, ast.AsyncWith)) and len(s.items) == 1 and isinstance(s.items[0].context_expr, ast.Call) and s.items[0].optional_vars is None:
